@@ -1336,7 +1336,7 @@ CONTRACTS = [
              interpret_always=(_roundtrip_call,), trusted=_pair_trust),
     Contract("wntr.epanet.io:InpFile._write_mixing/_read_mixing", P, [_mixing_case(m_) for m_ in (_MixType.Mix1, _MixType.Mix2, _MixType.FIFO, _MixType.LIFO)],
              interpret_always=(_roundtrip_call,), trusted=_pair_trust),
-    Contract("wntr.epanet.io:InpFile._write_status/_read_status", P + ["C02"], [_status_case(k_) for k_ in ("pump_closed", "pump_speed", "valve_open", "valve_closed")],
+    Contract("wntr.epanet.io:InpFile._write_status/_read_status", P + ["C02", "C03"], [_status_case(k_) for k_ in ("pump_closed", "pump_speed", "valve_open", "valve_closed")],
              interpret_always=(_roundtrip_call,), models=_token_models, trusted=_pair_trust),
     Contract("wntr.epanet.io:InpFile._write_demands/_read_demands", P + ["C01"], [_demands_case(u, n_, wp, wc) for u in _U for (n_, wp, wc) in ((2, True, True), (2, False, False), (1, True, True), (3, True, False))],
              interpret_always=(_roundtrip_call,), models=_token_models, trusted=_pair_trust),
